@@ -359,6 +359,16 @@ def _user_classes(spec):
     return [make_class(n, v, _NullRec()) for n, v in spec]
 
 
+class _Helper:
+    """a parameter value with identity semantics (e.g. a resolver or a logger handed to the model processors)"""
+
+    def __repr__(self):
+        return "<helper>"
+
+
+HELPER = _Helper()
+
+
 class InjectedProcError(Exception):
     """an application-defined exception raised by a processor (not derived from TextXError)"""
 
@@ -705,7 +715,8 @@ def run(ctx):
             ctx.probe("parameter-declared-between-loads")
         if t.chance(1, 2, "with-params"):
             if t.chance(1, 2, "p1"):
-                params["p1"] = t.pick(["a", 1, "zz"], "p1v")
+                # (a value may be any object: a helper that is only equal to itself must reach every model as it is)
+                params["p1"] = t.pick(["a", 1, "zz", HELPER], "p1v")
             if t.chance(1, 2, "p2"):
                 params["p2"] = t.pick([None, "b", 7], "p2v")
             if "p3" in sysm.declared and t.chance(2, 3, "p3"):
